@@ -196,13 +196,15 @@ def _cond(node, env, what):
     raise Untranslatable(f"{what}: condition outside the modelled atoms: {ast.dump(node)[:70]}")
 
 
-def _emission(call, out_name, names, what):
+def _emission(call, out_name, names, what, env=None):
     """`<out>.append(text)` -> 'text';  `<out>.append(style.render(text, color_system=self._color_system,
     legacy_windows=self.legacy_windows))` -> 'render'"""
     text, style, _ctl = names
     if not (isinstance(call, ast.Call) and _d(call.func) == _expr(f"{out_name}.append") and len(call.args) == 1 and not call.keywords):
         raise Untranslatable(f"{what}: statement is not {out_name}.append(<one argument>)")
     a = call.args[0]
+    while isinstance(a, ast.IfExp):          # `x if cond else y`: decided by the same atoms as the statements
+        a = a.body if _cond(a.test, env, what) else a.orelse
     if isinstance(a, ast.Name) and a.id == text:
         return "text"
     if isinstance(a, ast.Call) and _d(a.func) == _expr(f"{style}.render"):
@@ -238,7 +240,7 @@ def _run_body(stmts, env, out_name, names, what):
                 return emitted, True
             continue
         if isinstance(st, ast.Expr):
-            e = _emission(st.value, out_name, names, what)
+            e = _emission(st.value, out_name, names, what, env)
             if emitted is not None:
                 raise Untranslatable(f"{what}: one segment is appended twice")
             emitted = e
